@@ -100,7 +100,12 @@ pub fn run(a: &Args, acc: &mut Acc) {
         let (Ok(mut ra), Ok(mut rb)) = (Run::new(&cfg, &["C15"]), Run::new(&cfg_b, &["C15"])) else { continue };
         // scripted part: prologue ops are produced on A and mirrored onto B
         let mut shadow = ra.clone();
-        shadow.prologue();
+        if h % 2 == 0 {
+            // complete exit, accounting corrections with a staked total but no LST, re-entry, transfer storm
+            shadow.exit_scenario();
+        } else {
+            shadow.prologue();
+        }
         let mut ops: Vec<Op> = shadow.trace.clone();
         let mut g = Gen::new(hseed ^ 0x15, Profile::balanced());
         let mut fail: Option<String> = None;
